@@ -50,20 +50,34 @@ Definition from_network (version base prefix port proto : Z) : ts :=
 (** * IkeSa._get_ipsec_configuration *)
 Record conf := { c_index : Z; c_mode : Z; c_my_ts : ts; c_peer_ts : ts }.
 
-Fixpoint find_conf (tsi tsr : ts) (protect : list conf) : option (conf * ts * ts) :=
+(** one pass: the first entry (in configuration order) the rule [step] accepts *)
+Fixpoint find_conf (step : ts -> ts -> ts -> ts -> option (ts * ts)) (tsi tsr : ts) (protect : list conf)
+  : option (conf * ts * ts) :=
   match protect with
   | [] => None
   | c :: rest =>
-      match conf_step tsi tsr (c_my_ts c) (c_peer_ts c) with
+      match step tsi tsr (c_my_ts c) (c_peer_ts c) with
       | Some (m, p) => Some (c, m, p)
-      | None => find_conf tsi tsr rest
+      | None => find_conf step tsi tsr rest
+      end
+  end.
+
+(** the passes of the body of the TSr loop, in order *)
+Fixpoint try_passes (passes : list (ts -> ts -> ts -> ts -> option (ts * ts))) (tsi tsr : ts) (protect : list conf)
+  : option (conf * ts * ts) :=
+  match passes with
+  | [] => None
+  | step :: rest =>
+      match find_conf step tsi tsr protect with
+      | Some r => Some r
+      | None => try_passes rest tsi tsr protect
       end
   end.
 
 Fixpoint loop_tsr (tsi : ts) (tsrs : list ts) (protect : list conf) : option (conf * ts * ts) :=
   match tsrs with
   | [] => None
-  | tsr :: rest => match find_conf tsi tsr protect with Some r => Some r | None => loop_tsr tsi rest protect end
+  | tsr :: rest => match try_passes conf_passes tsi tsr protect with Some r => Some r | None => loop_tsr tsi rest protect end
   end.
 
 Fixpoint loop_tsi (tsis tsrs : list ts) (protect : list conf) : option (conf * ts * ts) :=
